@@ -285,6 +285,27 @@ def check(ctx: Ctx) -> None:
                     elif not ok:
                         ob.violation(fi, e.node, f"directory mode `{show(M)}` is neither the transmitted mode nor mode | 0o700")
         ob.require(n >= 3, f"{n} chmod sites (floor 3)")
+        # a directory's mode is *applied by chmod* whenever one was transmitted -- also for a directory that was just created:
+        # the mode argument of mkdir/makedirs is filtered by the receiver's umask (and drops setgid/sticky bits)
+        ndir = 0
+        for (_p, st) in rds_paths:
+            m = msg_of(st)
+            if m is None or (("pcall", "isinstance", (m, ("sym", "list")), ()), True) not in st.cond:
+                continue
+            modes = [("idx", m, const(0))] + [x.result for x in st.events if x.kind == "call" and x.attr == "pop" and x.recv == m and x.args == (const(0),)]
+            if any((mt, False) in st.cond for mt in modes):
+                continue   # no mode transmitted: nothing to apply
+            if not any(e.kind == "call" and e.attr == "pop" and e.recv == m for e in st.events) and not any(mentions(t, ("idx", m, const(0))) for (t, _v) in st.cond):
+                continue   # the path ended before the mode was taken from the message
+            ndir += 1
+            chm = [e for e in st.events if e.kind == "call" and e.callee == "os.chmod"]
+            mk = [e for e in st.events if e.kind == "call" and e.callee in ("os.makedirs", "os.mkdir")]
+            if not chm:
+                ob.violation(f_rds, (mk[0].node if mk else f_rds.node), "a directory with a transmitted mode is not chmod'ed on this path (the mode given to makedirs is masked by the "
+                                                                       "receiver's umask): group/other-writable or sticky source directories arrive with other permissions",
+                             construct="directory mode not applied by chmod")
+                break
+        ob.site(f_rds, f_rds.node, "directory paths with a transmitted mode end in chmod", paths=ndir)
 
     with ctx.obligation("C17.d", "link-cwd") as ob:
         fls = repo.func("rsync.RSync._send_link_structure")
